@@ -327,6 +327,13 @@ Proof.
   destruct m; simpl; try reflexivity. unfold source_is_view. simpl. now rewrite Hk.
 Qed.
 
+Lemma page_hinkley_safe g : stores_only_copies c (copy_kinds c) (page_hinkley P O p0 ok show g).
+Proof.
+  intros m p sl x k Hk. unfold copy_kinds in Hk. apply negb_true_iff in Hk.
+  destruct m; simpl; try reflexivity.
+  destruct (g p x) as [[|] p']; simpl; unfold source_is_view; simpl; now rewrite Hk.
+Qed.
+
 Lemma scalar_safe g K : stores_only_copies c K (scalar_detector P O p0 ok show g).
 Proof. intros m p sl x k _. destruct m; reflexivity. Qed.
 
@@ -424,6 +431,8 @@ Lemma site_table (A : Type) c (P O : Type) (p0 : P) ok show :
        = [Store 0 SValidated] /\ origin_of (@SValidated A) = site_origin c SiteNndviRef) /\
   (forall g p sl (x : @value A), snd (sites (cusum P O p0 ok show g) MUpdate p sl x)
        = [Push 0 SValidated] /\ origin_of (@SValidated A) = site_origin c SiteCusumStream) /\
+  (forall g p sl (x : @value A), In (Push 0 SValidated) (snd (sites (page_hinkley P O p0 ok show g) MUpdate p sl x))
+       /\ origin_of (@SValidated A) = site_origin c SitePhScores) /\
   (forall f g p sl (x : @value A), fst (g p (one sl 0) x) = true ->
        snd (sites (hdm P O p0 ok show f g) MUpdate p sl x) = [Store 0 SFrameOfValidated]
        /\ origin_of (@SFrameOfValidated A) = site_origin c SiteHdmAdopted) /\
@@ -431,9 +440,10 @@ Lemma site_table (A : Type) c (P O : Type) (p0 : P) ok show :
        exists s rest, snd (sites (md3 c P O p0 ok show ft tg f g lab) MOracle p sl x) = Store 2 s :: rest
        /\ origin_of s = site_origin c SiteMd3OracleFirst).
 Proof.
-  split; [|split; [|split]].
+  split; [|split; [|split; [|split]]].
   - intros; split; reflexivity.
   - intros; split; reflexivity.
+  - intros g p sl x. split; [|reflexivity]. simpl. destruct (g p x) as [[|] p']; simpl; auto.
   - intros f g p sl x Hd. simpl. destruct (g p (one sl 0) x) as [d p']. simpl in Hd. subst. split; reflexivity.
   - intros ft tg f g lab p sl x Hs. simpl. rewrite Hs.
     destruct (lab p (one sl 2 ++ x)) as [full p']. simpl.
